@@ -35,7 +35,7 @@ type HmapValue = shmap.Map[Value, Value, shmap.Meth[Value]]
 
 // EmptyObject is a readonly empty SuObject
 var EmptyObject = func() *SuObject {
-	ob := &SuObject{readonly: true}
+	ob := &SuObject{readonly: true, copyCount: new(atomic.Int32)}
 	ob.concurrent = true
 	return ob
 }()
